@@ -462,9 +462,11 @@ pub fn receiver_blocking<M: ZooMsg + ?Sized>(sh: Shared, plan: Arc<Plan>) {
             lock(&sh).recv_returned();
             match res {
                 Ok(Ok(guard)) => {
-                    let occupied = guard.as_bytes().len();
-                    let _ = occupied;
-                    match inspect::<M>(&*guard) {
+                    // never let the guard be dropped implicitly (e.g. while unwinding): its Drop
+                    // calls size() and skip(), which may panic on a broken tree – a panic inside
+                    // a panic would abort the whole process
+                    let guard = std::mem::ManuallyDrop::new(guard);
+                    match inspect::<M>(&**guard) {
                         Ok((size, view_len, val, revalidates, invalid)) => {
                             let retain = {
                                 let mut w = lock(&sh);
@@ -477,11 +479,11 @@ pub fn receiver_blocking<M: ZooMsg + ?Sized>(sh: Shared, plan: Arc<Plan>) {
                                 d.pipe.delivered_total - d.consumed
                             };
                             if retain {
-                                guard.retain();
+                                std::mem::ManuallyDrop::into_inner(guard).retain();
                                 lock(&sh).probe(P::retained_guard);
                                 outcome = RecvOutcome::Msg { val, size, view_len, occupied: occ, revalidates, retained: true, drop_panic: None, invalid };
                             } else {
-                                let dp = guarded(move || drop(guard)).err();
+                                let dp = guarded(move || drop(std::mem::ManuallyDrop::into_inner(guard))).err();
                                 let drop_panic = dp.map(|c| c.describe());
                                 if drop_panic.is_some() {
                                     stop = true;
@@ -490,7 +492,6 @@ pub fn receiver_blocking<M: ZooMsg + ?Sized>(sh: Shared, plan: Arc<Plan>) {
                             }
                         }
                         Err(c) => {
-                            std::mem::forget(guard);
                             outcome = RecvOutcome::Panic(format!("guard inspection: {}", c.describe()));
                             stop = true;
                         }
@@ -665,7 +666,10 @@ pub async fn receiver_async<M: ZooMsg + ?Sized>(sh: Shared, plan: Arc<Plan>) {
         let res = rx.recv().await;
         lock(&sh).recv_returned();
         match res {
-            Ok(guard) => match inspect::<M>(&*guard) {
+            Ok(guard) => {
+                // see receiver_blocking: the guard must never be dropped implicitly
+                let guard = std::mem::ManuallyDrop::new(guard);
+                match inspect::<M>(&**guard) {
                 Ok((size, view_len, val, revalidates, invalid)) => {
                     let retain = {
                         let mut w = lock(&sh);
@@ -677,11 +681,11 @@ pub async fn receiver_async<M: ZooMsg + ?Sized>(sh: Shared, plan: Arc<Plan>) {
                         d.pipe.delivered_total - d.consumed
                     };
                     if retain {
-                        guard.retain();
+                        std::mem::ManuallyDrop::into_inner(guard).retain();
                         lock(&sh).probe(P::retained_guard);
                         outcome = RecvOutcome::Msg { val, size, view_len, occupied: occ, revalidates, retained: true, drop_panic: None, invalid };
                     } else {
-                        let dp = guarded(move || drop(guard)).err();
+                        let dp = guarded(move || drop(std::mem::ManuallyDrop::into_inner(guard))).err();
                         let drop_panic = dp.map(|c| c.describe());
                         if drop_panic.is_some() {
                             stop = true;
@@ -690,11 +694,11 @@ pub async fn receiver_async<M: ZooMsg + ?Sized>(sh: Shared, plan: Arc<Plan>) {
                     }
                 }
                 Err(c) => {
-                    std::mem::forget(guard);
                     outcome = RecvOutcome::Panic(format!("guard inspection: {}", c.describe()));
                     stop = true;
                 }
-            },
+            }
+            }
             Err(RecvError::Closed) => {
                 outcome = RecvOutcome::Closed;
                 let retry = {
